@@ -127,6 +127,23 @@ def enumerate_cases(tier, seed):
                     for order in (0, 1, 2):
                         yield {"ops": config_ops(dag, set(fdef), set(rdef), order), "kind": "enum",
                                "dag": dag, "order": order}
+    # base-list churn: a sub space D over independent bases A, B, C, E: every ordered initial base list of
+    # size 2..3 out of {A, B, C}, every non-empty removal, then every possible addition (exhaustive)
+    indep = ["A", "B", "C", "E"]
+    for k in (2, 3):
+        for init in itertools.permutations(indep[:3], k):
+            for r in range(1, k + 1):
+                for rem in itertools.combinations(init, r):
+                    rest = [b for b in init if b not in rem]
+                    for add in [b for b in indep if b not in rest]:
+                        ops = [["new_space", [], b, None, None] for b in indep]
+                        for j, b in enumerate(indep):
+                            ops.append(["new_cells", [b], fcell(j)])
+                            ops.append(["set_ref", [b], "r", ["v", 10 + j], None])
+                        ops.append(["new_space", [], "D", [[b] for b in init], None])
+                        ops.append(["remove_bases", ["D"], [[b] for b in rem]])
+                        ops.append(["add_bases", ["D"], [[add]]])
+                        yield {"ops": ops, "kind": "enum", "family": "base-churn"}
     if tier == "thorough":
         # a deterministic 4% sample of the 5-space DAGs
         n = 5
